@@ -648,6 +648,10 @@ typedef struct {
 
 ASTNode *parse_program(Token *tokens, int token_count);
 void free_ast(ASTNode *node);
+/* If expression (spec 4.8): the expression a branch yields, i.e. the single
+ * expression of a `{ expr }` block or a chained `else if`; NULL for a
+ * statement block (no value) */
+ASTNode *if_branch_value(ASTNode *branch);
 
 /* Type Checker */
 bool type_check(ASTNode *program, Environment *env);
